@@ -234,5 +234,22 @@ func graphMain(args []string) {
 				}()
 			}
 		}
+		if pending {
+			// the scenario ends inside a deferred load (deferred adds, possibly followed by removals): complete it
+			// and observe - a transition out of a pending state is judged by what the component answers afterwards,
+			// along THIS path (the reference state alone does not say what the implementation has cached)
+			func() {
+				defer func() {
+					if r := recover(); r != nil {
+						emit(M{"ev": "panic", "op": "obs", "msg": fmt.Sprint(r)})
+					}
+				}()
+				ev := graphStep(g, gOp{Ev: "detect"})
+				emit(ev)
+				if ev["ev"] != "panic" {
+					emit(graphObs(g, universe))
+				}
+			}()
+		}
 	}
 }
